@@ -17,6 +17,8 @@
 EXTENDS Wire, TLC, Json, IOUtils
 Trace == ndJsonDeserialize(IOEnv.VERIF_TRACE)
 VARIABLE l
+\* protowire.ConsumeField: a budget of 10000 levels below the outermost record
+GroupDepthLimit == 10001
 
 \* body length of the described record; e.nd = payload length as base-128 digits (wire type 2),
 \* e.d = varint value digits and e.vlen its encoded width (wire type 0)
@@ -25,10 +27,13 @@ BodyLen(e) ==
       [] e.wt = 1 -> 8
       [] e.wt = 5 -> 4
       [] e.wt = 2 -> Len(Varint(e.nd)) + e.n
+      \* a group: e.n start tags (this one included), e.vlen two-byte records, e.n end tags
+      [] e.wt = 3 -> (2 * e.n - 1) * TagSize(e.num, 3) + 2 * e.vlen
 WellDescribed(e) ==
     /\ e.num >= 1 /\ e.num <= 536870911
     /\ e.tpad >= 0 /\ TagSize(e.num, e.wt) + e.tpad <= 10
     /\ (e.wt = 0 => e.vlen >= Len(Varint(e.d)) /\ e.vlen <= 10)
+    /\ (e.wt = 3 => e.n >= 1 /\ e.vlen >= 0)
     /\ (e.wt = 2 => DigitsToNat(e.nd) = e.n)
 \* e.tpad: extra continuation groups in the TAG varint (a non-minimal but valid encoding)
 RecLen(e) == TagSize(e.num, e.wt) + e.tpad + BodyLen(e)
@@ -37,7 +42,11 @@ Step ==
     /\ l <= Len(Trace)
     /\ LET e == Trace[l]
            want == RecLen(e)
-           skipOK == e.panic = "" /\ ~e.err /\ e.got = want /\ e.reclen = want
+           \* groups nested deeper than the reference budget: Skip may refuse or skip them
+           \* (decoding must then agree with the reference: e.unk_ok)
+           deep == e.wt = 3 /\ e.n > GroupDepthLimit
+           skipOK == /\ e.panic = "" /\ e.reclen = want
+                     /\ IF deep THEN e.err \/ e.got = want ELSE ~e.err /\ e.got = want
            \* decoded into a type without that field: the record is stored byte for byte, alone and
            \* before a second record, and re-emitted unchanged
            unkOK == e.unk_ok
